@@ -9,6 +9,7 @@ from ..cfg import calls_at, node_exprs
 from ..core import Checker
 from ..loader import AnalysisError, Func, norm, walk_expr, walk_own
 from ..prov import ELEM, ITEM, call_name, expand, expand1, get_arg, is_marker, refers_to_call, scope_of
+from .generic_lints import run_all as _lints
 
 TOKEN_FIELDS = ("ino", "mtime", "size")
 META_EQ_FALSE_OK = {"remote", "is_link", "destination", "nlink"}
@@ -27,6 +28,7 @@ def _resolve_int(ck: Checker, fn: Func, e: ast.expr) -> Optional[int]:
 
 
 def check(ck: Checker) -> None:
+    _lints(ck, "C13.aliasing", "hashfile.state", "hashfile.hash", "index.checkout")
     ck.decided = [
         "C13.token: one token function, hashing the raw inode, mtime and size of the stat record, is used by every writer of a hash row and by the reader",
         "C13.hit: State._get returns a hit only across 'stored token == fresh token' and 'version absent or not newer'; get/get_many turn every failure into a miss and get_many yields exactly one row per requested path",
@@ -47,7 +49,16 @@ def check(ck: Checker) -> None:
     _update(ck)
     _md5(ck)
     _savepair(ck)
+    from .build_common import check_zip_alignment_all
+
+    nz = check_zip_alignment_all(ck, "C13.savepair", prog_func(ck, "index.checkout", "_create_files"),
+                                 "entries are paired positionally with the paths/stats of another list: hashes are recorded in the state (and metas in the index) under the wrong files")
+    ck.floor("C13.savepair", nz, 1, "positional pairings (zip) in index.checkout._create_files")
     _statkeys(ck)
+
+
+def prog_func(ck: Checker, mod: str, qual: str) -> Func:
+    return ck.prog.func(mod, qual)
 
 
 def _statkeys(ck: Checker) -> None:
